@@ -60,6 +60,75 @@ def _suffixes(src):
     return None, ['suffixes dict not found']
 
 
+def _opts_consts(src):
+    """constants of opts.py `Opts.add` / `Opts.format`: the spellings read as True / False, the key that
+    accumulates a list, the separator `format` joins with, the characters the local `split` treats
+    specially"""
+    tree = ast.parse(src)
+    out = {'true': None, 'false': None, 'listkey': None, 'join': None, 'sep': None, 'open': None, 'close': None}
+    notes = []
+    for cls in tree.body:
+        if not (isinstance(cls, ast.ClassDef) and cls.name == 'Opts'):
+            continue
+        for f in cls.body:
+            if isinstance(f, ast.FunctionDef) and f.name == 'add':
+                for n in ast.walk(f):
+                    if isinstance(n, ast.If) and isinstance(n.test, ast.Compare) and len(n.test.ops) == 1:
+                        t = n.test
+                        left = ast.unparse(t.left)
+                        comp = t.comparators[0]
+                        body = ast.unparse(n.body[0]) if n.body else ''
+                        if left == 'arg' and isinstance(t.ops[0], ast.In) and isinstance(comp, ast.Tuple) \
+                                and all(isinstance(e, ast.Constant) and isinstance(e.value, str) for e in comp.elts):
+                            vals = [e.value for e in comp.elts]
+                            if body == 'arg = True':
+                                out['true'] = vals
+                            elif body == 'arg = False':
+                                out['false'] = vals
+                        if left == 'key' and isinstance(t.ops[0], ast.Eq) and isinstance(comp, ast.Constant) \
+                                and 'append' in ' '.join(ast.unparse(b) for b in n.body):
+                            out['listkey'] = comp.value
+                        if left == 'c' and isinstance(t.ops[0], ast.Eq) and isinstance(comp, ast.Constant):
+                            if 'bracket_level += 1' in body:
+                                out['open'] = comp.value
+                            elif 'bracket_level -= 1' in body:
+                                out['close'] = comp.value
+                    if isinstance(n, ast.For) and ast.unparse(n.target) == 'c' and isinstance(n.iter, ast.BinOp) \
+                            and isinstance(n.iter.right, ast.Constant):
+                        out['sep'] = n.iter.right.value
+            if isinstance(f, ast.FunctionDef) and f.name == 'format':
+                for n in ast.walk(f):
+                    if isinstance(n, ast.Return) and isinstance(n.value, ast.Call) and isinstance(n.value.func, ast.Attribute) \
+                            and n.value.func.attr == 'join' and isinstance(n.value.func.value, ast.Constant) \
+                            and ast.unparse(n.value.args[0]) == 'parts':
+                        out['join'] = n.value.func.value.value
+    for k, v in out.items():
+        if v is None:
+            notes.append('opts.%s not found' % k)
+    return out, notes
+
+
+def _suffix_aliases(src):
+    """`if arg.endswith(X): arg = arg[0:-n] + Y` in value_parser -> [(X, Y)] (n must be len(X))"""
+    tree = ast.parse(src)
+    out = []
+    notes = []
+    for f in ast.walk(tree):
+        if isinstance(f, ast.FunctionDef) and f.name == 'value_parser':
+            for n in ast.walk(f):
+                if isinstance(n, ast.If) and isinstance(n.test, ast.Call) and ast.unparse(n.test.func) == 'arg.endswith' \
+                        and len(n.body) == 1 and isinstance(n.body[0], ast.Assign):
+                    x = n.test.args[0].value
+                    rhs = ast.unparse(n.body[0].value)
+                    import re as _re
+                    m = _re.match(r"arg\[0:-(\d+)\] \+ '(\w+)'$", rhs)
+                    if m and int(m.group(1)) == len(x):
+                        out.append((x, m.group(2)))
+                    else:
+                        notes.append('value_parser alias %r: %s' % (x, rhs))
+    return out, notes
+
+
 def _printer_fixes(src):
     """Which of the repairs of the findings C06-e / C06-a / C06-b the printer in mnacpts.py contains
     (read from the AST of `Cpt._arg_format` / `Cpt._netmake1`; anything unrecognised counts as absent and
@@ -168,8 +237,11 @@ def generate(repo):
             unparsed.append('rule-line:' + line[:40])
     msrc = open(os.path.join(repo, 'lcapy', 'mnacpts.py')).read()
     fixes, fnotes = _printer_fixes(msrc)
+    osrc = open(os.path.join(repo, 'lcapy', 'opts.py')).read()
+    oc, onotes = _opts_consts(osrc)
+    aliases, anotes = _suffix_aliases(vsrc)
     suff, bad = _suffixes(vsrc)
-    unparsed += ['suffix:' + b for b in bad]
+    unparsed += ['suffix:' + b for b in bad] + onotes + anotes
     suff = suff or []
 
     L = []
@@ -199,6 +271,17 @@ def generate(repo):
     L.append('/-- valueparser.value_parser: suffix character, power of ten -/')
     L.append('def suffixSrc : List (Char × Int) := [%s]' % ', '.join('(%s, %d)' % (lchar(k), e) for k, e in suff))
     L.append('')
+    L.append('/-- valueparser.value_parser: `endswith` aliases (suffix text, replacement) -/')
+    L.append('def suffixAliases : List (List Char × List Char) := [%s]' % ', '.join('(%s, %s)' % (lstr(a), lstr(b)) for a, b in aliases))
+    L.append('')
+    L.append('/-- opts.Opts.add / format: spellings read as True / False, the list-valued key, the separator of')
+    L.append('    `format`, and the split / bracket characters of the local `split` -/')
+    L.append('def optsTrue : List (List Char) := [%s]' % ', '.join(lstr(x) for x in (oc['true'] or [])))
+    L.append('def optsFalse : List (List Char) := [%s]' % ', '.join(lstr(x) for x in (oc['false'] or [])))
+    L.append('def optsListKey : List Char := %s' % lstr(oc['listkey'] or ''))
+    L.append('def optsJoin : List Char := %s' % lstr(oc['join'] or ''))
+    L.append('def optsSplitChars : List Char := %s' % lstr((oc['sep'] or '') + (oc['open'] or '') + (oc['close'] or '')))
+    L.append('')
     L.append('/-- mnacpts.Cpt._arg_format / _netmake1: which repairs (C06-e, C06-a, C06-b) the source contains -/')
     L.append('def printerFix : Bool × Bool × Bool := (%s, %s, %s)' % tuple('true' if x else 'false' for x in fixes))
     L.append('')
@@ -206,7 +289,7 @@ def generate(repo):
     text = '\n'.join(L) + '\n'
     info = {'rules': len(rules), 'params': len(params), 'suffixes': len(suff), 'unparsed': unparsed,
             'rule_classes': [r[0] for r in rules], 'printer_fixes': {'C06-e': fixes[0], 'C06-a': fixes[1], 'C06-b': fixes[2]},
-            'printer_notes': fnotes}
+            'printer_notes': fnotes, 'opts_constants': oc, 'suffix_aliases': aliases, 'opts_notes': onotes + anotes}
     return text, info
 
 
